@@ -4,7 +4,7 @@
    table regenerated from the source: Copy/Current.v. *)
 From Coq Require Import List String Bool Arith Lia.
 From Cobra.Copy Require Import Heap Model Obs Lemmas Proofs ModelCopy Unrepaired Current
-     CopyWf CopySep CopyData CopyState CopySpecies CopyLink CopyRxn CopyGroups CopyModelCell CopyDesc CopyWfContent CopyRefuted.
+     CopyWf CopySep CopyData CopyState CopySpecies CopyLink CopyRxn CopyGroups CopyModelCell CopyDesc CopyWfContent CopySort CopyObsEq CopyEquiv CopyRefuted.
 From Cobra.Gen Require CopyTables.
 Import ListNotations.
 Open Scope list_scope.
@@ -113,6 +113,27 @@ Theorem C12_model_copy_structure :
     exists mc OM OG OR OP, ModelOk T h m mc OM OG OR OP /\ CopyDesc T h mc OM OG OR OP h'.
 Proof. exact model_copy_structure. Qed.
 Print Assumptions C12_model_copy_structure.
+
+(* ---- copy_equiv for Model.copy: for every heap in which the model is consistent (`wf_model_content`) and its
+        back references agree with its reactions (`consistent_b`: every object points at the model; the
+        `_reaction` sets of metabolites and genes and the `_genes` sets of reactions are exactly what the
+        stoichiometry and the rules say; link containers have their constructor's class), both BOOLEAN and evaluated
+        by the check on every real heap: Model.copy does not raise and the copy is observed exactly like the
+        original (`obs_model`: every attribute of the model and of every object, containers unfolded, references
+        summarised as class + id + registered, attribute order and set order canonicalised). *)
+Theorem C12_model_copy_equiv :
+  forall T h m h' m' ok,
+    table_safe T = true -> table_shape T = true -> wf_model_content T h m = true -> consistent_b T h m = true ->
+    model_copy T h m = (h', m', ok) ->
+    ok = true /\ obs_model h' m' = obs_model h m /\ equiv_b OpModelCopy h m h' m' = true.
+Proof. exact model_copy_equiv. Qed.
+Print Assumptions C12_model_copy_equiv.
+
+(* set order and attribute order are not content: sort_items is invariant under permutation (distinct keys) *)
+Theorem C12_sort_items_permutation :
+  forall l1 l2, Permutation.Permutation l1 l2 -> List.NoDup (List.map ikey l1) -> sort_items l1 = sort_items l2.
+Proof. exact sort_items_permutation. Qed.
+Print Assumptions C12_sort_items_permutation.
 
 Theorem C12_model_copy_total :
   forall T h m h' m' ok,
@@ -251,6 +272,7 @@ Qed.
    model with a registered nested group *)
 Example C12_wf_nonvacuous :
   wf_model_heap table_v1 toy 0 = true /\ wf_model_content table_v1 toy 0 = true /\
+  consistent_b table_v1 toy 0 = true /\ consistent_b table_v1 toy_nested_registered 0 = true /\
   wf_model_content table_v1 toy_nested_registered 0 = true /\
   snd (model_copy table_v1 toy_nested_registered 0) = true.
 Proof. vm_compute. repeat split; reflexivity. Qed.
